@@ -799,7 +799,7 @@ func allTargets() []*target {
 		mode := map[bool]string{true: "accept", false: "reject"}[accept]
 		newR := func() (any, func()) { f := startFakeRADIUS(accept); return f, f.close }
 		// handlePAP and the Authenticator call RADIUS synchronously (no goroutines): in-process is safe
-		add(&target{name: "pppoe.Server.handleSession[Authentication,RADIUS " + mode + "]", entry: "pppoe.Server.handleSession", seeds: sessionSeeds()[5:6], wraps: sessWraps[7:], newCtx: newR,
+		add(&target{name: "pppoe.Server.handleSession[Authentication,RADIUS " + mode + "]", entry: "pppoe.Server.handleSession", seeds: sessionSeeds()[5:6], wraps: sessWraps[7:], newCtx: newR, light: true,
 			call: func(cx any, in []byte) bool {
 				srv, _ := newPPPoEServerCfg("pap", pppoe.StateAuthentication, true, false, radiusClientFor(cx.(*fakeRADIUS)))
 				srv.VerifC09Session(clientMAC, in)
@@ -816,7 +816,7 @@ func allTargets() []*target {
 				if accept && prior > 0 {
 					continue
 				}
-				add(&target{name: fmt.Sprintf("pppoe.Authenticator.ReceivePacket[%s,pending,RADIUS %s,%d earlier failures]", pn, mode, prior), entry: "pppoe.Authenticator.ReceivePacket(" + pn + ")", seeds: seeds, newCtx: newR,
+				add(&target{name: fmt.Sprintf("pppoe.Authenticator.ReceivePacket[%s,pending,RADIUS %s,%d earlier failures]", pn, mode, prior), entry: "pppoe.Authenticator.ReceivePacket(" + pn + ")", seeds: seeds, newCtx: newR, light: true, quickLite: prior > 0,
 					call: func(cx any, in []byte) bool {
 						cfg := pppoe.DefaultAuthConfig()
 						cfg.Protocol = proto
@@ -922,7 +922,7 @@ func allTargets() []*target {
 	for _, c := range v6cfgs {
 		for _, ps := range []string{"no lease", "lease"} {
 			c, ps := c, ps
-			add(&target{name: fmt.Sprintf("dhcpv6.Server.handleMessage[%s,%s]", c.name, ps), entry: "dhcpv6.Server.handleMessage", seeds: dhcp6Seeds(sd), quickLite: c.name != "legacy addr+pd" && c.name != "integrated addr+pd", light: c.name != "legacy addr+pd" && c.name != "integrated addr+pd",
+			add(&target{name: fmt.Sprintf("dhcpv6.Server.handleMessage[%s,%s]", c.name, ps), entry: "dhcpv6.Server.handleMessage", seeds: dhcp6Seeds(sd), quickLite: c.name != "legacy addr+pd" && c.name != "integrated addr+pd", light: c.name != "legacy addr+pd",
 				wraps: []func([]byte) []byte{
 					func(p []byte) []byte { return append([]byte{1, 0, 0, 1, 0, 1, 0, byte(len(p))}, p...) }, // Solicit, ClientID = p
 					func(p []byte) []byte {
